@@ -2,8 +2,8 @@ _T = "C06_blocks_spec / C06_consume_token_spec (tokens), C06_tokenize_total (no 
 SPEC = {
     "id": "C06",
     "harness": "c06",
-    "n": {"quick": 4000, "thorough": 60000},
-    "shard": 250,
+    "n": {"quick": 5000, "thorough": 60000},
+    "shard": 500,
     "trusted_base": [
         "strconv.ParseFloat/ParseInt, regexp, unicode/utf8 of the Go standard library (the float32 value of numeric tokens is not compared; the representation string and the integer flag are)",
         "/repo hook css/parser/verif_export_c06.go (read-only accessors of unexported token flags and parse-error kinds)",
@@ -17,9 +17,9 @@ SPEC = {
               "2": "skipped",
               "3": "implementation panicked or hung where the model (proved total) returns a value",
               "4": "model panics / runs out of fuel where the implementation returned"},
-    "theorems_for_kind": {k: _T for k in ["corpus", "exhaust", "short", "soup", "decls", "rules", "nth", "tests",
+    "theorems_for_kind": {k: _T for k in ["corpus", "exhaust", "exhaust-ctx", "trunc", "trunc-gen", "short", "soup", "decls", "rules", "nth", "tests",
                                           "mut-prefix", "mut-delete", "mut-replace", "mut-insert", "mut-none"]},
-    "rule": "SplitMix64-seeded: corpus (witnesses of the fixed defects), all strings of length <= 2 (thorough 3) over a 21-symbol alphabet, random short strings, grammar-directed token soups with escapes and nesting depth <= 6, declaration-list / rule-list / An+B shaped texts, css-parsing-tests inputs, and prefix / single-rune deletion / replacement / insertion mutations of all of them; entry points Tokenize (both modes), ParseStylesheetBytes, ParseBlocksContentsString, ParseDeclarationListString, ParseOneDeclaration, ParseNth; non-trivial = at least 2 code points; distinct by (entry point, flags, source)",
+    "rule": "SplitMix64-seeded: corpus (witnesses of the fixed defects), all strings of length <= 2 (thorough 3) over a 21-symbol alphabet, every prefix (end of input after every code point) of ~200 well-formed constructs covering every scanner and look-ahead (bare, one nesting level down, and through the fitting parser entry point), per-scanner exhaustive neighbourhoods (heads such as u+ 1e url( ' \\ # @ followed by all strings of length <= 2..4 over the symbols that scanner distinguishes; ~7000 inputs, all deterministic), every prefix of a sample of the generated texts, random short strings, grammar-directed token soups with escapes and nesting depth <= 6, declaration-list / rule-list / An+B shaped texts, css-parsing-tests inputs, and prefix / single-rune deletion / replacement / insertion mutations of all of them; entry points Tokenize (both modes), ParseStylesheetBytes, ParseBlocksContentsString, ParseDeclarationListString, ParseOneDeclaration, ParseNth; non-trivial = at least 2 code points; distinct by (entry point, flags, source)",
 }
 MANIFEST = {
     "text": "Coq model of css/parser tokenizer.go / parser.go / nth.go (line-by-line port over code points, panics visible) proved total and proved equal, for every valid UTF-8 text, to an independent two-phase transcription of CSS Syntax Level 3 (3.3 preprocessing, 4.3 consume-a-token incl. escapes/strings/urls/numbers, 5.4.7-9 blocks and functions) modulo a documented presentation map; declaration lists / rule lists proved compositional at ';' / '{}' (exact error recovery), !important and declarations proved = 5.4.6, ParseNth proved = the <an+b> grammar, positions proved = (1+newlines, 1+bytes since newline) per iteration. The model is compared with /repo on every run by vm_compute on complete token / compound trees (flags, byte positions) for six entry points.",
